@@ -29,27 +29,27 @@ var c08ZeroVisible bool
 func c08Struct(h, j, u, p *Node) *Node {
 	if c08ZeroVisible {
 		return NStruct(
-			F{Name: "V", Tag: `bexpr:"v" json:"jv" pointer:"pv" é-tag.v2:"jv"`, V: NNilAny()},
-			F{Name: "H", Tag: `bexpr:"-" json:"h" é-tag.v2:"h"`, V: NAny(h)},
-			F{Name: "J", Tag: `json:"-" é-tag.v2:"-"`, V: NAny(j)},
+			F{Name: "V", Tag: `bexpr:"v" json:"jv" pointer:"pv" É-Tag.v2:"jv"`, V: NNilAny()},
+			F{Name: "H", Tag: `bexpr:"-" json:"h" É-Tag.v2:"h"`, V: NAny(h)},
+			F{Name: "J", Tag: `json:"-" É-Tag.v2:"-"`, V: NAny(j)},
 			F{Name: "u", Unexp: true, V: NAny(u)},
-			F{Name: "R", Tag: `bexpr:"H" json:"J" pointer:"P" é-tag.v2:"J"`, V: NNilAny()},
-			F{Name: "P", Tag: `pointer:"-" json:"p" é-tag.v2:"p"`, V: NAny(p)},
+			F{Name: "R", Tag: `bexpr:"H" json:"J" pointer:"P" É-Tag.v2:"J"`, V: NNilAny()},
+			F{Name: "P", Tag: `pointer:"-" json:"p" É-Tag.v2:"p"`, V: NAny(p)},
 			F{Name: "N", V: NInt(KInt, false, 0)},
 		)
 	}
 	return NStruct(
-		F{Name: "V", Tag: `bexpr:"v" json:"jv" pointer:"pv" é-tag.v2:"jv"`, V: NAny(str("vis"))},
-		F{Name: "H", Tag: `bexpr:"-" json:"h" é-tag.v2:"h"`, V: NAny(h)},
-		F{Name: "J", Tag: `json:"-" é-tag.v2:"-"`, V: NAny(j)},
+		F{Name: "V", Tag: `bexpr:"v" json:"jv" pointer:"pv" É-Tag.v2:"jv"`, V: NAny(str("vis"))},
+		F{Name: "H", Tag: `bexpr:"-" json:"h" É-Tag.v2:"h"`, V: NAny(h)},
+		F{Name: "J", Tag: `json:"-" É-Tag.v2:"-"`, V: NAny(j)},
 		F{Name: "u", Unexp: true, V: NAny(u)},
-		F{Name: "R", Tag: `bexpr:"H" json:"J" pointer:"P" é-tag.v2:"J"`, V: NAny(str("renamed"))},
-		F{Name: "P", Tag: `pointer:"-" json:"p" é-tag.v2:"p"`, V: NAny(p)},
+		F{Name: "R", Tag: `bexpr:"H" json:"J" pointer:"P" É-Tag.v2:"J"`, V: NAny(str("renamed"))},
+		F{Name: "P", Tag: `pointer:"-" json:"p" É-Tag.v2:"p"`, V: NAny(p)},
 	)
 }
 
-// c08OddTag: a legal struct-tag key with a non-ASCII letter and punctuation; the struct declares under it exactly what it declares under json
-const c08OddTag = "\u00e9-tag.v2"
+// c08OddTag: a legal struct-tag key with non-ASCII and UPPER-CASE letters and punctuation (a tag key is case sensitive); the struct declares under it exactly what it declares under json
+const c08OddTag = "\u00c9-Tag.v2"
 
 // which of (H,J,u,P) are hidden under a tag name
 func c08HiddenSet(tag string) [4]bool {
